@@ -5,9 +5,12 @@ here = os.path.dirname(os.path.dirname(os.path.abspath(__file__)))
 props = [json.loads(l)["id"] for l in open(os.path.join(here, "properties.jsonl"))]
 checks, na = [], []
 pending = json.load(open(os.path.join(here, "manifest.d", "_not_claimed.json"))) if os.path.exists(os.path.join(here, "manifest.d", "_not_claimed.json")) else {}
+hold = json.load(open(os.path.join(here, "manifest.d", "_hold.json"))) if os.path.exists(os.path.join(here, "manifest.d", "_hold.json")) else {}
 for p in props:
     f = os.path.join(here, "manifest.d", p + ".json")
-    if os.path.exists(f):
+    if p in hold:
+        na.append({"property_id": p, "reason": hold[p]})
+    elif os.path.exists(f):
         c = json.load(open(f))
         c.setdefault("property_id", p)
         c.setdefault("quick_cmd", f"./check {p} --tier quick")
